@@ -95,10 +95,10 @@ Emit ==
   /\ CASE area = "dict" ->
             \A b \in DictBases : \A m \in DictMut(b) :
                /\ Out("DictDecode", Len(m.bytes), 0, m)
-               /\ \A cap \in {Len(b.i), Len(b.i) - 1, 1000} : Out("DictDecodeInto", Len(m.bytes), cap, m)
+               /\ \A cap \in {0, 1, Len(b.i), Len(b.i) - 1, 1000} : Out("DictDecodeInto", Len(m.bytes), cap, m)
        [] area \in {"gamma", "delta"} ->
             \A vs \in EliasBases : \A m \in EliasMut(area, vs) :
-               \A cap \in {Len(vs), Len(vs) - 1, 64} :
+               \A cap \in {0, 1, Len(vs), Len(vs) - 1, 64} :   \* the empty and the one-element output array too
                   Out(IF area = "gamma" THEN "EliasGammaDecodeArray" ELSE "EliasDeltaDecodeArray", m.bits, cap, m)
        [] area = "bitmap" -> \A m \in BitmapMut : Out("BitmapDecode", Len(m.bytes), 0, m)
        [] area = "rle" -> \A r \in RleBases : \A m \in RleMut(r) : Out("RLEGetRunCount", Len(m.bytes), 0, m)
